@@ -281,7 +281,11 @@ def expm_cases(draw):
     if kind in ("singular", "singular_upper", "jordan", "nilpotent_dense") and draw(st.booleans()):
         norm = min(norm, 10.0 ** draw(st.floats(-3, 1.0)))     # keep most of them below F11 land
     return {"kind": kind, "n": n, "seed": draw(st.integers(0, 2 ** 31)), "norm": norm,
-            "h": 10.0 ** draw(st.floats(-4, 2)), "order": draw(st.sampled_from([0, 1])),
+            # any step: usually 1e-4 .. 1e2, sometimes the steps of slow dynamics in small units (years in
+            # seconds: the entries of A are then far below 1e-8 in absolute terms) or of very fast ones
+            "h": (10.0 ** draw(st.floats(-4, 2)) if draw(st.integers(0, 4)) else
+                  draw(st.sampled_from([1e4, 1e6, 3.15e7, 1e9, 1e12, 1e-6, 1e-9]))),
+            "order": draw(st.sampled_from([0, 1])),
             "B": draw(st.sampled_from(["none", "matrix", "half"])), "ncolB": draw(st.integers(1, 3)),
             "half_with_B": draw(st.booleans())}
 
